@@ -195,7 +195,7 @@ extern int mpt_graph_set(MPT_STRUCT(graph) *gr, const char *name, MPT_INTERFACE(
 			gr->align = def_graph.align;
 			return 0;
 		}
-		if (len) {
+		if (len > 0) {
 			return 0;
 		}
 		if ((len = src->_vptr->convert(src, 's', &v)) < 0) {
@@ -228,7 +228,7 @@ extern int mpt_graph_set(MPT_STRUCT(graph) *gr, const char *name, MPT_INTERFACE(
 			gr->clip = def_graph.clip;
 			return 0;
 		}
-		if (len) {
+		if (len > 0) {
 			return 0;
 		}
 		if ((len = src->_vptr->convert(src, 's', &v)) < 0) {
